@@ -400,6 +400,8 @@ func (s *Store[H]) setTail(ctx context.Context, write datastore.Write, to uint64
 			return fmt.Errorf("writing headKey in batch: %w", err)
 		}
 		s.contiguousHead.Store(&newTail)
+		// Height must follow the head, advanceHead below only updates it if it finds even newer headers
+		s.heightSub.SetHeight(newTail.Height())
 		s.advanceHead(ctx)
 	}
 	return nil
